@@ -34,6 +34,7 @@ fn warm_up() {
     hashseam::set_thread_hash_seed(0x00C0_FFEE);
     worlds::hierarchy::warm_up();
     worlds::batched::warm_up();
+    worlds::authz::warm_up();
 }
 
 fn run_world<W: World>(world: W, tier: Tier) -> i32 {
@@ -189,6 +190,7 @@ macro_rules! dispatch {
     ($name:expr, $f:ident $(, $arg:expr)*) => {
         match $name {
             "hierarchy" | "C04" => $f(worlds::hierarchy::Hierarchy $(, $arg)*),
+            "authz" | "C01" => $f(worlds::authz::Authz $(, $arg)*),
             "batched" | "C15" => $f(worlds::batched::Batched $(, $arg)*),
             other => harness_error(&format!("unknown world/property {other}")),
         }
@@ -246,6 +248,7 @@ fn main() {
         "worlds" => {
             println!("hierarchy");
             println!("batched");
+            println!("authz");
             0
         }
         "digest" => {
